@@ -33,6 +33,7 @@ structure UriGood (E : Env) (P : Sets) (u : Uri) : Prop where
   passutf : utf8Valid u.password = true
   passuser : u.username = [] → u.password = []
   host : HostGood E u.host
+  hostq : quote P.host u.host = u.host        -- a registered name in canonical form needs no escape
   port : u.port = u.PORT ∨ ∃ p, u.port = some p ∧ some p ≠ u.PORT ∧ 0 < p ∧ p ≤ 65535
   pathshape : u.path = [] ∨ startsWith u.path [0x2F] = true
   pathesc : ∀ s ∈ splitOn1 0x2F u.path, Escapable P.path s
@@ -109,7 +110,8 @@ theorem composeAuthority_eq (E : Env) (P : Sets) (u : Uri) (G : UriGood E P u) :
     composeAuthority P u = .ok ((if u.username.isEmpty then [] else userPart P u ++ [0x40]) ++ u.host ++ portText u) := by
   unfold composeAuthority
   have hne : u.host.isEmpty = false := by simpa using G.host.ne
-  simp only [hne, Bool.false_eq_true, if_false, G.host.idna, bind, Except.bind, pure, Except.pure]
+  simp only [hne, Bool.false_eq_true, if_false, G.host.idna, bind, Except.bind, pure, Except.pure,
+    G.host.nobracket, Bool.and_false, G.hostq]
   unfold userPart portText
   by_cases hue : u.username.isEmpty = true
   · simp only [hue, if_true]; rfl
@@ -368,6 +370,7 @@ theorem c10_whole_witness :
            passuser := (by intro h; exact absurd h (by decide +kernel)),
            host := ⟨by decide +kernel, by decide +kernel, by decide +kernel, by decide +kernel, by decide +kernel, by decide +kernel,
                     by decide +kernel, by decide +kernel, by decide +kernel⟩,
+           hostq := (by decide +kernel),
            port := Or.inr ⟨8080, rfl, by decide +kernel, by decide, by decide⟩,
            pathshape := Or.inr (by decide +kernel), pathesc := (by decide +kernel), pathutf := (by decide +kernel),
            query := Or.inr (by decide +kernel), queryhash := (by decide +kernel), frag := (by decide +kernel), fragutf := (by decide +kernel) }
